@@ -541,6 +541,7 @@ def suite_sets(tier, seed):
             uniq.setdefault(json.dumps([cfg.model(), params], sort_keys=True), (cfg, params))
         vlib.pmap_proc(setpipe.smc_export_job, [(d, cp[0].model(), cp[1], cp[0].name) for cp in uniq.values()], workers=4)
         hint = setpipe.hint_theorem(d, range(7), [0, 1, 2, 3])
+        merge = setpipe.merge_theorem(d, range(6 if tier == 'quick' else 7), [0, 1, 2, 3])
 
         def one_job(job):
             cfg, params = job
@@ -566,7 +567,7 @@ def suite_sets(tier, seed):
             r['kind'] = 'setsim'
             return r
         results += pmap(onesim, sims, workers=6)
-        return dict(results=results, hint=hint)
+        return dict(results=results, hint=hint, merge=merge)
     return cached_suite('sets', tier, seed, compute)
 
 
@@ -1185,7 +1186,7 @@ def run_property(prop, tier, seed):
         results += r['results']
         wall += r.get('wall', 0)
         cached = cached and r.get('cached', False)
-        for k in ('hint', 'growth_model'):
+        for k in ('hint', 'merge', 'growth_model'):
             if k in r:
                 extra[k] = r[k]
     res = dict(results=results, wall=wall, cached=cached)
@@ -1199,6 +1200,9 @@ def run_property(prop, tier, seed):
     if 'hint' in extra and prop in ('C12', 'C19'):
         cov['hint_theorem'] = extra['hint']
         cov['transitions'] += extra['hint']['instances']
+    if 'merge' in extra and prop == 'C03':
+        cov['merge_theorem'] = extra['merge']
+        cov['transitions'] += extra['merge']['instances']
     if prop in ('C19', 'C12'):
         cov['max_lookup_cmps'] = max([r['stats'].get('maxLookupCmps', 0) for r in results] + [0])
         cov['max_correct_hint_cmps'] = max([r['stats'].get('maxHintCmps', 0) for r in results] + [0])
